@@ -109,6 +109,15 @@ func (s *QueryPlanStep) setQuery() *QueryPlanStep {
 func getVariablesList(s ast.SelectionSet) []string {
 	var args []string
 	for _, f := range common.SelectionSetToFields(s, nil) {
+		// variables used by the directives of the field
+		for _, d := range f.Directives {
+			for _, a := range d.Arguments {
+				if a.Value != nil && a.Value.Kind == ast.Variable {
+					args = append(args, a.Value.Raw)
+				}
+			}
+		}
+
 		for _, a := range f.Arguments {
 			if len(a.Value.Children) > 0 {
 				args = append(args, getArgumentListChildrenVariablesList(a.Value.Children)...)
